@@ -134,7 +134,13 @@ fn run_script<S: Settings>(case: &J, settings: S) -> J {
     let wd = ju(case, "watchdog_s", 20);
     let mut steps_out: Vec<J> = vec![];
     let mut outcome = json!({"kind": "none"});
-    let sampler = match catch(|| Sampler::new(model, settings, HashMapConfig::new(), cores, None)) {
+    let sopts = verif_harness::slowstore::SlowOpts {
+        record_sleep_us: ju(case, "record_sleep_us", 0),
+        record_fail: case.get("record_fail").and_then(|x| x.as_array()).map(|a| (a[0].as_u64().unwrap(), a[1].as_u64().unwrap())),
+        finalize_fail: case.get("finalize_fail").and_then(|x| x.as_u64()),
+    };
+    let storage = verif_harness::slowstore::SlowConfig { inner: HashMapConfig::new(), opts: sopts };
+    let sampler = match catch(|| Sampler::new(model, settings, storage, cores, None)) {
         Err(p) => return json!({"id": case["id"], "new": format!("panic: {p}")}),
         Ok(Err(e)) => return json!({"id": case["id"], "new": format!("err: {e:?}")}),
         Ok(Ok(s)) => s,
@@ -297,7 +303,8 @@ fn run_script<S: Settings>(case: &J, settings: S) -> J {
         .map(|(c, l)| json!([c, l.lock().unwrap().fatal_hits]))
         .collect();
     json!({"id": case["id"], "new": "ok", "steps": steps_out, "outcome": outcome, "hang": hang, "events": events,
-           "fatal_hits": fatal_hits})
+           "fatal_hits": fatal_hits,
+           "storage_fail_hits": verif_harness::slowstore::FAIL_HITS.load(std::sync::atomic::Ordering::SeqCst)})
 }
 
 fn main() {
